@@ -409,7 +409,7 @@ func (r *planReader) Read(p []byte) (int, error) {
 // RespBody is the deterministic body of a response: a function of the request id and the length.
 func RespBody(rid, n int) []byte {
 	b := make([]byte, n)
-	tag := fmt.Sprintf("<resp %d>", rid)
+	tag := "<resp " + strconv.Itoa(rid) + ">"
 	for i := range b {
 		b[i] = tag[i%len(tag)]
 	}
@@ -483,12 +483,12 @@ func (w *SrvWorld) drainEvents() {
 					w.GaugeHWM = w.Gauge
 				}
 				w.gates = append(w.gates, &gate{rid: ev.rid, name: ev.name, gor: ev.gor, ch: ev.gate, open: w.plan.GateMode == "open"})
-				w.EntrySeq = append(w.EntrySeq, fmt.Sprintf("%d enter %d", w.sim.Steps, ev.rid))
-				w.sim.Obs(fmt.Sprintf("enter %d %s %s %d", ev.rid, ev.snap.Method, ev.snap.URI, len(ev.snap.Body)))
+				w.EntrySeq = append(w.EntrySeq, itoa(w.sim.Steps)+" enter "+itoa(ev.rid))
+				w.sim.Obs("enter " + itoa(ev.rid) + " " + ev.snap.Method + " " + ev.snap.URI + " " + itoa(len(ev.snap.Body)))
 			case "exit":
 				w.Gauge--
 				w.Exits[ev.rid]++
-				w.EntrySeq = append(w.EntrySeq, fmt.Sprintf("%d exit %d", w.sim.Steps, ev.rid))
+				w.EntrySeq = append(w.EntrySeq, itoa(w.sim.Steps)+" exit "+itoa(ev.rid))
 			}
 		default:
 			return
@@ -1021,21 +1021,21 @@ func (w *SrvWorld) EnvActions() []Action {
 	var acts []Action
 	// deliveries towards the server
 	if n := len(w.c2s.Inflight); n > 0 && !w.c2s.cutDone {
-		acts = append(acts, Action{Name: fmt.Sprintf("deliver c2s all(%d)", n), Run: func() { w.c2s.Deliver(n) }, Env: true, Weight: 20})
+		acts = append(acts, Action{Name: "deliver c2s all(" + itoa(n) + ")", Run: func() { w.c2s.Deliver(n) }, Env: true, Weight: 20})
 		if w.plan.Frag && n > 1 {
 			acts = append(acts, Action{Name: "deliver c2s 1", Run: func() { w.c2s.Deliver(1) }, Env: true, Weight: 6})
 			k := 1 + int(Mix(uint64(w.sim.Steps), uint64(n))%uint64(n-1))
-			acts = append(acts, Action{Name: fmt.Sprintf("deliver c2s %d", k), Run: func() { w.c2s.Deliver(k) }, Env: true, Weight: 10})
+			acts = append(acts, Action{Name: "deliver c2s " + itoa(k), Run: func() { w.c2s.Deliver(k) }, Env: true, Weight: 10})
 		}
 	}
 	// deliveries towards the peer
 	if n := len(w.s2c.Inflight); n > 0 && !w.stallS2C {
-		acts = append(acts, Action{Name: fmt.Sprintf("deliver s2c all(%d)", n), Run: func() { w.s2c.Deliver(n); w.peerReceive() }, Env: true, Weight: 20})
+		acts = append(acts, Action{Name: "deliver s2c all(" + itoa(n) + ")", Run: func() { w.s2c.Deliver(n); w.peerReceive() }, Env: true, Weight: 20})
 		if w.plan.DelayS2C && n > 9 {
 			// one frame only
 			l := 9 + (int(w.s2c.Inflight[0])<<16 | int(w.s2c.Inflight[1])<<8 | int(w.s2c.Inflight[2]))
 			if pend := w.fr.Pending(); pend == 0 && l < n {
-				acts = append(acts, Action{Name: fmt.Sprintf("deliver s2c frame(%d)", l), Run: func() { w.s2c.Deliver(l); w.peerReceive() }, Env: true, Weight: 10})
+				acts = append(acts, Action{Name: "deliver s2c frame(" + itoa(l) + ")", Run: func() { w.s2c.Deliver(l); w.peerReceive() }, Env: true, Weight: 10})
 			}
 		}
 	} else if !w.PeerEOF && w.s2c.EOF && len(w.s2c.Inflight) == 0 && !w.stallS2C {
@@ -1045,7 +1045,7 @@ func (w *SrvWorld) EnvActions() []Action {
 	for _, l := range w.lanes {
 		if !w.manualLanes && w.laneEnabled(l) {
 			l := l
-			acts = append(acts, Action{Name: fmt.Sprintf("peer-send lane%d op%d", l.idx, l.next), Run: func() { w.laneSend(l) }, Env: true, Weight: 10})
+			acts = append(acts, Action{Name: "peer-send lane" + itoa(l.idx) + " op" + itoa(l.next), Run: func() { w.laneSend(l) }, Env: true, Weight: 10})
 		}
 	}
 	// gates
@@ -1072,7 +1072,7 @@ func (w *SrvWorld) EnvActions() []Action {
 				continue
 			}
 			i, f := i, f
-			acts = append(acts, Action{Name: fmt.Sprintf("fault %s@%d", f.Kind, f.At), Run: func() { w.faultsDone[i] = true; w.applyFault(f) }, Env: true, Weight: 8})
+			acts = append(acts, Action{Name: "fault " + f.Kind + "@" + itoa(f.At), Run: func() { w.faultsDone[i] = true; w.applyFault(f) }, Env: true, Weight: 8})
 		}
 	}
 	return acts
